@@ -172,21 +172,21 @@ impl Add for Wide {
     type Output = Wide;
     #[inline]
     fn add(self, o: Wide) -> Wide {
-        Wide { v: self.v + o.v, tag: self.tag & o.tag | (self.tag ^ o.tag) }
+        Wide { v: self.v + o.v, tag: if self.tag == TAG && o.tag == TAG { TAG } else { 0 } }
     }
 }
 impl Sub for Wide {
     type Output = Wide;
     #[inline]
     fn sub(self, o: Wide) -> Wide {
-        Wide { v: self.v - o.v, tag: self.tag & o.tag | (self.tag ^ o.tag) }
+        Wide { v: self.v - o.v, tag: if self.tag == TAG && o.tag == TAG { TAG } else { 0 } }
     }
 }
 impl Mul for Wide {
     type Output = Wide;
     #[inline]
     fn mul(self, o: Wide) -> Wide {
-        Wide { v: self.v * o.v, tag: self.tag & o.tag | (self.tag ^ o.tag) }
+        Wide { v: self.v * o.v, tag: if self.tag == TAG && o.tag == TAG { TAG } else { 0 } }
     }
 }
 impl Neg for Wide {
@@ -199,7 +199,7 @@ impl Neg for Wide {
 impl Div for Wide {
     type Output = Wide;
     fn div(self, o: Wide) -> Wide {
-        Wide { v: self.v / o.v, tag: self.tag & o.tag | (self.tag ^ o.tag) }
+        Wide { v: self.v / o.v, tag: if self.tag == TAG && o.tag == TAG { TAG } else { 0 } }
     }
 }
 num_boilerplate!(Wide, wide, |c: Wide| c.v);
